@@ -948,14 +948,14 @@ class NumpyModel:
             return a
         else:
             ts = [self.I.truth(a)]
+        ts = [(t.args[0] if isinstance(t, Guard) and t.kind == "const" else t) for t in ts]
         if all(isinstance(t, (bool, np.bool_)) for t in ts):
             return all(bool(t) for t in ts)
         if any(t is False for t in ts):
             return False
         gs = [t for t in ts if isinstance(t, Guard)]
-        # all(v == 0) recognised as one fact about the vector
-        if gs and all(g.kind == "cmp" and g.args[0] == "Eq" and isinstance(g.args[2], E) and not g.args[2].t for g in gs) \
-                and len(gs) == len(ts):
+        # all(v == 0) recognised as one fact about the vector (cells that are statically 0 drop out)
+        if gs and all(g.kind == "cmp" and g.args[0] == "Eq" and isinstance(g.args[2], E) and not g.args[2].t for g in gs):
             return Guard("all", "eqzero", tuple(g.args[1] for g in gs))
         return Guard("and", *gs)
 
